@@ -46,6 +46,12 @@ def gen_form_case(rng, tier, forms=("arc", "path", "seq"), heur_p=0.35, nmax=Non
         if rng.random() < 0.4:
             # queries issued BEFORE the heuristic (fills the object's caches; they must not matter afterwards)
             case["pre"] = rng.sample(["n", "obj", "con", "qubo_o", "qubo_f"], rng.randint(1, 3))
+    if form == "seq" and case.get("heur") is not None and rng.random() < 0.3:
+        # a depot window that closes: the heuristic's exit arcs may be refused, so it raises after it has already added vehicles / arcs;
+        # the half-updated object must still report what its state says (with queries issued before)
+        his = [Fraction(nd["hi"]) for nd in spec["nodes"][1:] if nd["hi"] != "inf"]
+        spec["nodes"][0]["hi"] = fs(max(Fraction(0), max(his + [Fraction(1)]) + Fraction(rng.randint(-3, 2))))
+        case.setdefault("pre", rng.sample(["n", "obj", "con", "qubo_o", "qubo_f"], rng.randint(1, 3)))
     if rng.random() < 0.25:
         # the graph is assembled through the formulation object's own add_node / add_arc / set_depot, the depot named late
         case["via"] = "wrapper"
@@ -222,6 +228,47 @@ def check_construction(o, res):
         extra = [a for a in gw["arcs"] if a not in gr["arcs"]][:3]
         res.fail("construction:graph", "the formulation object assembled through add_node/add_arc/set_depot (depot named late) does not hold the "
                  f"specified routing problem: arcs lost {lost}, arcs not specified {extra}, nodes {gw['nodes'] != gr['nodes']}")
+        return False
+    return True
+
+
+def fresh_twin(o, form):
+    """a new object holding a copy of the instance state of `o` (graph, grid / pool / vehicles and positions) and no caches"""
+    from copy import deepcopy
+    from vrpqubo.routing_problem import ArcBasedRoutingProblem, PathBasedRoutingProblem, SequenceBasedRoutingProblem
+    if form == "arc":
+        t = ArcBasedRoutingProblem(o.vrptw)
+        t.time_points = deepcopy(o.time_points)
+    elif form == "path":
+        t = PathBasedRoutingProblem(o.vrptw)
+        t.routes = [list(r) for r in o.routes]
+        t.route_costs = list(o.route_costs)
+        t.route_node_visited = [np.array(v, copy=True) for v in o.route_node_visited]
+    else:
+        t = SequenceBasedRoutingProblem(None, strict=o.strict)
+        t.vrptw = deepcopy(o.vrptw)
+        t.max_vehicles = o.max_vehicles
+        t.vehicle_cost = list(o.vehicle_cost)
+        t.max_sequence_length = o.max_sequence_length
+    return t
+
+
+def check_fresh_twin(o, form, res):
+    """whatever happened to `o` before (queries, a heuristic that returned or raised): what it reports now must be what an object
+    without caches reports for the same instance state"""
+    try:
+        a = (int(o.get_num_variables()), VU.impl_data(o)) if int(o.get_num_variables()) > 0 else (0, None)
+    except Exception as e:  # noqa
+        a = ("raises", core.err_kind(e))
+    try:
+        t = fresh_twin(o, form)
+        b = (int(t.get_num_variables()), VU.impl_data(t)) if int(t.get_num_variables()) > 0 else (0, None)
+    except Exception as e:  # noqa
+        b = ("raises", core.err_kind(e))
+    if a != b:
+        what = "number of variables" if a[0] != b[0] else next((k for k in (a[1] or {}) if (b[1] or {}).get(k) != a[1][k]), "data")
+        res.fail(f"{form}:stale-data", f"the object reports {what} that differ from what a cache-free object with the same instance state reports "
+                                      f"({a[0]} vs {b[0]} variables)")
         return False
     return True
 
